@@ -548,6 +548,47 @@ func TestEndToEnd(t *testing.T) {
 	propWire.Check(t, kit.N(40, 150))
 }
 
+// propWireEnum: the fixed part of the end-to-end variant - combinations that
+// must be present at every seed, not just likely.
+var propWireEnum = &kit.Prop[WireCase]{
+	ID: "C13", Name: "e2e-enum", Journal: true,
+	Rule: "ALL of: {cloning, plain} round tripper x response-side verifier {header.Verifier scope response, header.Verifier both sides, status.Verifier} x verification query through the proxy {before, between, after} two ordinary exchanges with unmet expectations, closed by a second query; one keep-alive connection; non-trivial = all",
+	Run:  runWire,
+}
+
+func TestEndToEndEnum(t *testing.T) {
+	if kit.Race() {
+		t.Skip("the race shard is spent on the in-process concurrent variant")
+	}
+	x := func(path string) WireOp {
+		return WireOp{K: "X",
+			Req: &tr.Req{Method: "GET", Scheme: "http", Host: "example.com", Path: path, HostH: "example.com", Header: map[string][]string{}},
+			Res: &tr.Res{Status: 500, Header: map[string][]string{"X-B": {"1"}}}}
+	}
+	v := WireOp{K: "V"}
+	propWireEnum.Enumerate(t, func(yield func(WireCase) bool) {
+		for _, clone := range []bool{true, false} {
+			for _, leaf := range []*tr.Node{
+				{ID: 2, T: tr.HeaderVerifier, P: map[string]string{"name": "X-A"}, HasScope: true, Scope: []string{"response"}},
+				{ID: 2, T: tr.HeaderVerifier, P: map[string]string{"name": "X-A"}},
+				{ID: 2, T: tr.StatusVerifier, N: 200},
+			} {
+				for _, ops := range [][]WireOp{
+					{v, x("/x"), x("/y"), v},
+					{x("/x"), v, x("/y"), v},
+					{x("/x"), x("/y"), v, v},
+				} {
+					l := *leaf
+					tree := &tr.Node{ID: 1, T: tr.Fifo, Kids: []*tr.Node{&l}}
+					if !yield(WireCase{Tree: tree, Conns: 1, CloneRT: clone, Ops: append([]WireOp{}, ops...)}) {
+						return
+					}
+				}
+			}
+		}
+	})
+}
+
 // propMobile: the same end-to-end history against the shipped assembly of
 // package mobile. "Requests addressed to the proxy's own API are never
 // counted" is a promise about the product, and where the API mark is set
